@@ -485,8 +485,11 @@ HARNESSES = [
         oracle="models/query_ref.py in_grammar (recursive-descent recogniser written from the QueryHandler docstring)",
         stubs=_TOK, outside="queries longer than the bound; term spellings other than a, \"a\", a*"),
     R.H("parse_rejects_unbalanced", _TP,
-        quick=R.tier(cells=kcells(3, split1_from=3), env={"VP_N": 3}, timeout=300,
-                     bound="every token-kind list of length <= 3 over the 13 token kinds, every spelling variant"),
+        quick=R.tier(cells=kcells(3, split1_from=3) + [{"VP_LEN": 4, "VP_K0": Q.LBRACE, "VP_K1": Q.TAG, "VP_N": 4},
+                                                       {"VP_LEN": 4, "VP_K0": Q.LBRACK, "VP_K1": Q.LBRACE, "VP_N": 4}],
+                     env={"VP_N": 3}, timeout=300,
+                     bound="every token-kind list of length <= 3 over the 13 token kinds, every spelling variant; plus "
+                           "the length-4 lists beginning '{ term' and '[ {' (exact groups with an optional part)"),
         thorough=R.tier(cells=kcells(4, split1_from=3), env={"VP_N": 4}, timeout=900, path_timeout=30,
                         bound="every token-kind list of length <= 4 over the 13 token kinds, every spelling variant"),
         what="a query whose ( [ { ) ] } do not balance is rejected with ValueError",
